@@ -1,20 +1,24 @@
-import TracklibVerif.Lemmas.GridMain
+import TracklibVerif.Lemmas.GridReturns
 import Mathlib.Data.Rat.Floor
 /-! # C08 — the grid spatial index never omits a feature that is geometrically there
 
 Property theorems only (helper lemmas: `Lemmas/Grid.lean` (ordered-field geometry), `Lemmas/GridCells.lean`,
-`GridIndex.lean`, `GridBuild.lean`, `GridQuery.lean`, `GridMain.lean`). The model is `Model/Grid.lean`
-(`core/spatial_index.py` after ad7c5ee and 9a44198, `cartesienne`/`isSegmentIntersects` of `util/geometry.py`).
+`GridIndex.lean`, `GridBuild.lean`, `GridQuery.lean`, `GridMain.lean`, `GridReturns.lean`). The model is
+`Model/Grid.lean` (`core/spatial_index.py` after ad7c5ee, 9a44198, the degenerate-extent repair and the upper-border
+repair, `cartesienne`/`isSegmentIntersects` of `util/geometry.py`).
 
 All statements are over an arbitrary linearly ordered field `α` (ℚ, ℝ) with `fl : α → ℤ` any function satisfying
 the contract of `math.floor` (`IsFloor`); they are about the exact values, not about IEEE rounding.
 `lerp A B s` is the point `A + s (B − A)` of the segment `[A, B]`; `Consec t` are the consecutive vertex pairs of
 the track `t`; `Holds g i j k` says `k ∈ grid[i][j]`. `getCell ix p = some c` says that `p` is inside the closed
-extent and `c` are its fractional cell indices (what `__getCell` returns when it returns; `getCellR` is `__getCell`
-with its ZeroDivisionError on a zero cell side). A theorem about `build … = .ok ix` speaks about constructor calls
-that return: since 9a44198 that includes the thin extents with the default resolution (`default_resolution_builds`);
-for `margin = 0` none returns (finding `vertex-on-upper-border`), nor for a collection with a segment and a flat
-extent (`flat_extent_raises`). -/
+extent and `c` are its fractional cell indices (what `__getCell` returns: `getCell_min_is_identity`). `cellOf fl ix c =
+(min(floor c.x, csize − 1), min(floor c.y, lsize − 1))` is the cell containing the point, as `request(coord)` computes
+it: cells are half-open as `floor` assigns them, except that the last column / row is closed on the upper border of
+the extent (`extent_point_cell`). The legitimate configurations are `margin ≥ 0` (0 included) and the default or a
+positive explicit cell size; on them the constructor and every query of a point / segment / track inside the closed
+extent return (`constructor_returns`, `point_query_complete`, `segment_query_returns`, `track_query_returns`,
+`neighborhood_complete`), for every bounding box: thin, flat, a single point, shorter than a cell
+(`grid_always_builds`, `flat_axis_single_column`). -/
 namespace TV.C08
 open TV.Grid
 variable {α : Type} [Field α] [LinearOrder α] [IsStrictOrderedRing α]
@@ -28,118 +32,202 @@ theorem straddle_necessary (s1 s2 : Seg α) (r q : α) (hr0 : 0 ≤ r) (hr1 : r 
     isSegmentIntersects s1 s2 = true :=
   (isSegmentIntersects_iff s1 s2).mpr (inter_of_common _ _ _ _ _ _ _ _ r q hr0 hr1 hq0 hq1 hx hy)
 
-/-- T2 `cells_complete`: if a point `P = c1 + s (c2 − c1)` of the segment `[c1, c2]` (fractional cell indices) lies
-in cell `(i, j)`, i.e. `i ≤ Px < i+1` and `j ≤ Py < j+1`, then `(i, j)` is in the list returned by
-`__cellsCrossSegment(c1, c2)`: the cell is inside the scanned index box and passes one of the five tests. -/
-theorem cells_complete {fl : α → Int} (hf : IsFloor fl) (c1 c2 : α × α) (s : α) (hs0 : 0 ≤ s) (hs1 : s ≤ 1) (i j : Int)
-    (hi : ((i : Int) : α) ≤ (lerp c1 c2 s).1 ∧ (lerp c1 c2 s).1 < ((i : Int) : α) + 1)
-    (hj : ((j : Int) : α) ≤ (lerp c1 c2 s).2 ∧ (lerp c1 c2 s).2 < ((j : Int) : α) + 1) :
-    (i, j) ∈ cellsCross fl c1 c2 := by
-  have := cellsCross_complete hf c1 c2 s hs0 hs1
+/-- T2 `cells_complete`: let `P = c1 + s (c2 − c1)` be a point of the segment `[c1, c2]` (fractional cell indices) of
+a grid of `cs × ls` cells, and `(i, j)` a cell containing it: `i ≤ Px < i+1`, or `i = cs − 1` is the last column and
+`i ≤ Px ≤ cs` (closed on the upper border); likewise for `j`. Then `(i, j)` is in the list returned by
+`__cellsCrossSegment(c1, c2)`: the cell is inside the scanned (clamped) index box and passes one of the five tests —
+including for a segment lying exactly on the upper border. -/
+theorem cells_complete {fl : α → Int} (hf : IsFloor fl) (cs ls : Int) (c1 c2 : α × α) (s : α) (hs0 : 0 ≤ s) (hs1 : s ≤ 1)
+    (i j : Int) (hic : i ≤ cs - 1) (hjc : j ≤ ls - 1)
+    (hi : ((i : Int) : α) ≤ (lerp c1 c2 s).1 ∧
+      ((lerp c1 c2 s).1 < ((i : Int) : α) + 1 ∨ (i = cs - 1 ∧ (lerp c1 c2 s).1 ≤ ((cs : Int) : α))))
+    (hj : ((j : Int) : α) ≤ (lerp c1 c2 s).2 ∧
+      ((lerp c1 c2 s).2 < ((j : Int) : α) + 1 ∨ (j = ls - 1 ∧ (lerp c1 c2 s).2 ≤ ((ls : Int) : α)))) :
+    (i, j) ∈ cellsCross fl cs ls c1 c2 := by
+  -- one axis: the clamped floor is the given index, and the coordinate is at most the size
+  have axis : ∀ (x : α) (k n : Int), k ≤ n - 1 → ((k : Int) : α) ≤ x →
+      (x < ((k : Int) : α) + 1 ∨ (k = n - 1 ∧ x ≤ ((n : Int) : α))) → min (fl x) (n - 1) = k ∧ x ≤ ((n : Int) : α) := by
+    intro x k n hkn h1 h2
+    have hk : k ≤ fl x := by
+      have := hf.mono h1
+      rwa [hf.eq_of (le_refl _) (by linarith)] at this
+    rcases h2 with h2 | ⟨rfl, h2⟩
+    · have e := hf.eq_of h1 h2
+      refine ⟨by rw [e]; exact min_eq_left hkn, ?_⟩
+      have : ((k : Int) : α) + 1 ≤ ((n : Int) : α) := by
+        have : ((k + 1 : Int) : α) ≤ ((n : Int) : α) := by exact_mod_cast (by omega : k + 1 ≤ n)
+        push_cast at this; exact this
+      linarith
+    · exact ⟨min_eq_right hk, h2⟩
   unfold lerp at hi hj
-  rw [hf.eq_of hi.1 hi.2, hf.eq_of hj.1 hj.2] at this
+  obtain ⟨ei, bx⟩ := axis _ i cs hic hi.1 hi.2
+  obtain ⟨ej, b_y⟩ := axis _ j ls hjc hj.1 hj.2
+  have := cellsCross_complete hf cs ls c1 c2 s hs0 hs1 bx b_y
+  rw [ei, ej] at this
   exact this
 
-/-- T3a `index_complete`: after `SpatialIndex(collection, resolution, margin)` with `margin ≥ 0` returned, every
-point `P` of every segment `[A, B]` of feature number `k` is inside the extent and the cell
-`(floor idx, floor idy)` containing it lists `k`. -/
+/-- `constructor_returns`: `SpatialIndex(collection, resolution, margin)` does not raise for a non-empty collection,
+`margin ≥ 0` — `margin = 0` included, where the right-most and top-most vertices lie on the upper border of the
+extent — and the default or a positive explicit cell size (a flat or single-point bounding box, a cell larger than
+the extent included). (Findings `vertex-on-upper-border` and `default-resolution-flat-extent`, repaired.) -/
+theorem constructor_returns {fl : α → Int} (hf : IsFloor fl) (feats : List (List (α × α))) (res : Option (α × α))
+    (margin : α) (hm : 0 ≤ margin) (hres : ∀ r, res = some r → 0 < r.1 ∧ 0 < r.2) (hne : feats.flatten ≠ []) :
+    ∃ ix, build fl feats res margin = .ok ix :=
+  build_returns hf feats res margin hm hres hne
+
+/-- `collection_create_index`: `TrackCollection.createSpatialIndex(resolution, verbose)` hands its flag to the
+constructor in the position of `margin`; the index it makes is `SpatialIndex(collection, resolution, margin)` with
+`margin = 1` (`verbose=True`) or `margin = 0` (`verbose=False`, the extent is the bounding box and the extreme
+vertices lie on its upper border). Both are `≥ 0`: the call returns and every theorem of this file applies to the
+index. (`Network.createSpatialIndex` passes resolution, margin, verbose in order: it is the constructor.) -/
+theorem collection_create_index {fl : α → Int} (hf : IsFloor fl) (feats : List (List (α × α))) (res : Option (α × α))
+    (verbose : Bool) (hres : ∀ r, res = some r → 0 < r.1 ∧ 0 < r.2) (hne : feats.flatten ≠ []) :
+    ∃ m ix, 0 ≤ m ∧ (m = 1 ∨ m = 0) ∧ createIndexTC fl feats res verbose = build fl feats res m ∧
+      build fl feats res m = .ok ix := by
+  cases verbose with
+  | true =>
+    obtain ⟨ix, h⟩ := build_returns hf feats res (1 : α) zero_le_one hres hne
+    exact ⟨1, ix, zero_le_one, Or.inl rfl, by simp [createIndexTC], h⟩
+  | false =>
+    obtain ⟨ix, h⟩ := build_returns hf feats res (0 : α) (le_refl _) hres hne
+    exact ⟨0, ix, le_refl _, Or.inr rfl, by simp [createIndexTC], h⟩
+
+/-- `getCell_min_is_identity`: on an index on which nothing raises (in particular every built index) `__getCell` as
+executed — `idx = min((x − xmin) / dX, csize)`, `idy = min((y − ymin) / dY, lsize)` — returns exactly the affine
+fractional indices `getCell`: the `min` (which protects against a quotient that exceeds the grid size by a rounding
+error when `x = xmax`) is the identity in exact arithmetic, because the cells cover the extent. -/
+theorem getCell_min_is_identity (ix : Index α) (hg : Good ix) (p : α × α) : getCellR ix p = .ok (getCell ix p) :=
+  getCellR_of_nz ix hg.nz hg.bounded p
+
+/-- `extent_point_cell`: on a built index every point `p` of the closed extent has a cell `cellOf` inside the grid
+(`0 ≤ i < csize`, `0 ≤ j < lsize`) whose closed square contains its fractional indices `c`: `i ≤ c.x ≤ i + 1`
+(`c.x < i + 1` except for the last column, which owns the upper border `c.x = csize`), likewise for `j`. -/
+theorem extent_point_cell {fl : α → Int} (hf : IsFloor fl) (feats : List (List (α × α))) (res : Option (α × α))
+    (margin : α) (ix : Index α) (hm : 0 ≤ margin) (hres : ∀ r, res = some r → 0 < r.1 ∧ 0 < r.2)
+    (hb : build fl feats res margin = .ok ix) (p c : α × α) (hp : getCell ix p = some c) :
+    let cell := cellOf fl ix c
+    ((0 ≤ cell.1 ∧ cell.1 < ix.csize) ∧ (0 ≤ cell.2 ∧ cell.2 < ix.lsize)) ∧
+    (((cell.1 : Int) : α) ≤ c.1 ∧ (c.1 < ((cell.1 : Int) : α) + 1 ∨ (cell.1 = ix.csize - 1 ∧ c.1 = ((ix.csize : Int) : α)))) ∧
+    (((cell.2 : Int) : α) ≤ c.2 ∧ (c.2 < ((cell.2 : Int) : α) + 1 ∨ (cell.2 = ix.lsize - 1 ∧ c.2 = ((ix.lsize : Int) : α)))) := by
+  intro cell
+  have hg := build_good hf feats res margin ix hm hres hb
+  obtain ⟨r1, r2⟩ := getCell_range hf feats res margin ix hm hres hb p c hp
+  have axis : ∀ (x : α) (n : Int), x ≤ ((n : Int) : α) →
+      (((min (fl x) (n - 1) : Int) : α) ≤ x ∧
+        (x < ((min (fl x) (n - 1) : Int) : α) + 1 ∨ (min (fl x) (n - 1) = n - 1 ∧ x = ((n : Int) : α)))) := by
+    intro x n hx
+    refine ⟨(clamp_closed hf x n hx).1, ?_⟩
+    rcases le_total (fl x) (n - 1) with h | h
+    · left; rw [min_eq_left h]; exact (hf x).2
+    · rcases lt_or_eq_of_le hx with hlt | heq
+      · left
+        rw [min_eq_right h]
+        push_cast; linarith
+      · right; exact ⟨min_eq_right h, heq⟩
+  exact ⟨cellOf_inGrid hf ix hg p c hp, axis c.1 ix.csize r1.2, axis c.2 ix.lsize r2.2⟩
+
+/-- T3a `index_complete`: after `SpatialIndex(collection, resolution, margin)` (`margin ≥ 0`, default or positive cell
+size) every point `P` of every segment `[A, B]` of feature number `k` is inside the extent and the cell containing
+it (`cellOf`) lists `k` — the vertices on the upper border of the extent (`margin = 0`) included. -/
 theorem index_complete {fl : α → Int} (hf : IsFloor fl) (feats : List (List (α × α))) (res : Option (α × α))
-    (margin : α) (ix : Index α) (hm : 0 ≤ margin) (hb : build fl feats res margin = .ok ix)
+    (margin : α) (ix : Index α) (hm : 0 ≤ margin) (hres : ∀ r, res = some r → 0 < r.1 ∧ 0 < r.2)
+    (hb : build fl feats res margin = .ok ix)
     (k : Nat) (t : List (α × α)) (hk : feats[k]? = some t) (A B : α × α) (hAB : (A, B) ∈ Consec t)
     (s : α) (hs0 : 0 ≤ s) (hs1 : s ≤ 1) :
-    ∃ c, getCell ix (lerp A B s) = some c ∧ Holds ix.grid (fl c.1) (fl c.2) k :=
-  build_registers hf feats res margin ix hm hb k t hk A B hAB s hs0 hs1
+    ∃ c, getCell ix (lerp A B s) = some c ∧ Holds ix.grid (cellOf fl ix c).1 (cellOf fl ix c).2 k :=
+  build_registers hf feats res margin ix hm hres hb k t hk A B hAB s hs0 hs1
 
-/-- T3b `point_query_complete`: `request(q)` for a point `q` inside the extent returns every feature `k` having
-a segment with a point `P` in the cell that contains `q` (same `floor` of both fractional indices): it does not
-raise and `k` is in the returned list. -/
+/-- T3b `point_query_complete`: `request(q)` for EVERY point `q` of the closed extent (its upper border included)
+does not raise, and returns every feature `k` having a segment with a point `P` in the cell that contains `q`
+(same `cellOf`). -/
 theorem point_query_complete {fl : α → Int} (hf : IsFloor fl) (feats : List (List (α × α))) (res : Option (α × α))
-    (margin : α) (ix : Index α) (hm : 0 ≤ margin) (hb : build fl feats res margin = .ok ix)
-    (k : Nat) (t : List (α × α)) (hk : feats[k]? = some t) (A B : α × α) (hAB : (A, B) ∈ Consec t)
-    (s : α) (hs0 : 0 ≤ s) (hs1 : s ≤ 1) (q cq cP : α × α) (hq : getCell ix q = some cq)
-    (hP : getCell ix (lerp A B s) = some cP) (hcell : fl cq.1 = fl cP.1 ∧ fl cq.2 = fl cP.2) :
-    ∃ l, requestPoint fl ix q = .ok l ∧ k ∈ l := by
-  obtain ⟨c, hc, l, hl, hkl⟩ := build_registers hf feats res margin ix hm hb k t hk A B hAB s hs0 hs1
+    (margin : α) (ix : Index α) (hm : 0 ≤ margin) (hres : ∀ r, res = some r → 0 < r.1 ∧ 0 < r.2)
+    (hb : build fl feats res margin = .ok ix) (q cq : α × α) (hq : getCell ix q = some cq) :
+    ∃ l, requestPoint fl ix q = .ok l ∧
+      ∀ (k : Nat) (t : List (α × α)) (A B : α × α) (s : α) (cP : α × α), feats[k]? = some t → (A, B) ∈ Consec t →
+        0 ≤ s → s ≤ 1 → getCell ix (lerp A B s) = some cP → cellOf fl ix cq = cellOf fl ix cP → k ∈ l := by
+  have hg := build_good hf feats res margin ix hm hres hb
+  obtain ⟨l, hl⟩ := requestPoint_ok hf ix hg q cq hq
+  refine ⟨l, hl, ?_⟩
+  intro k t A B s cP hk hAB hs0 hs1 hP hcell
+  obtain ⟨c, hc, l', hl', hkl⟩ := build_registers hf feats res margin ix hm hres hb k t hk A B hAB s hs0 hs1
   rw [hP] at hc; cases hc
-  obtain ⟨hnz, _, _⟩ := build_nonflat feats res margin ix hm hb t (List.mem_of_getElem? hk)
-    (List.ne_nil_of_mem hAB)
-  refine ⟨l, ?_, hkl⟩
-  unfold requestPoint requestCell
-  simp only [getCellR_of_nz ix hnz q, hq, hcell.1, hcell.2]
-  exact hl
+  unfold requestPoint requestCell at hl
+  simp only [getCellR_of_nz ix hg.nz hg.bounded q, hq, hcell] at hl
+  rw [hl] at hl'; cases hl'
+  exact hkl
 
-/-- T3c `segment_query_complete`: a returned `request([Q1, Q2])` contains every feature listed in the cell of any
-point `Q` of the query segment — in particular (T3a) every feature having a point in such a cell. -/
-theorem segment_query_complete {fl : α → Int} (hf : IsFloor fl) (ix : Index α) (Q1 Q2 : α × α) (l : List Nat)
+/-- T3c `segment_query_complete`: a returned `request([Q1, Q2])` on a built index contains every feature listed in
+the cell (`cellOf`) of any point `Q` of the query segment — in particular (T3a) every feature having a point in
+such a cell. -/
+theorem segment_query_complete {fl : α → Int} (hf : IsFloor fl) (feats : List (List (α × α))) (res : Option (α × α))
+    (margin : α) (ix : Index α) (hm : 0 ≤ margin) (hres : ∀ r, res = some r → 0 < r.1 ∧ 0 < r.2)
+    (hb : build fl feats res margin = .ok ix) (Q1 Q2 : α × α) (l : List Nat)
     (h : requestSeg fl ix Q1 Q2 = .ok l) (s : α) (hs0 : 0 ≤ s) (hs1 : s ≤ 1) :
-    ∃ c, getCell ix (lerp Q1 Q2 s) = some c ∧ ∀ k, Holds ix.grid (fl c.1) (fl c.2) k → k ∈ l := by
-  obtain ⟨p1, p2, g1, g2, _, hc⟩ := requestSegInto_spec fl ix [] l Q1 Q2 h
-  refine ⟨lerp p1 p2 s, getCell_lerp ix Q1 Q2 p1 p2 s hs0 hs1 g1 g2, ?_⟩
+    ∃ c, getCell ix (lerp Q1 Q2 s) = some c ∧ ∀ k, Holds ix.grid (cellOf fl ix c).1 (cellOf fl ix c).2 k → k ∈ l := by
+  have hg := build_good hf feats res margin ix hm hres hb
+  obtain ⟨p1, p2, g1, g2, _, hc⟩ := requestSegInto_spec fl ix hg.bounded [] l Q1 Q2 h
+  have hP := getCell_lerp ix Q1 Q2 p1 p2 s hs0 hs1 g1 g2
+  obtain ⟨r1, r2⟩ := getCell_range hf feats res margin ix hm hres hb _ _ hP
+  refine ⟨lerp p1 p2 s, hP, ?_⟩
   intro k hk
-  exact hc _ (cellsCross_complete hf p1 p2 s hs0 hs1) k hk
+  exact hc _ (cellsCross_complete hf ix.csize ix.lsize p1 p2 s hs0 hs1 r1.2 r2.2) k hk
 
-/-- T3e `segment_query_returns`: for an index built with `margin ≥ 0` and a positive (or the default) cell size,
-`request([Q1, Q2])` does not raise when both ends are inside the extent and strictly below its upper borders
-(with T3c: it then returns every feature registered in a crossed cell). On the upper border it raises IndexError:
-finding `query-on-upper-border`. -/
+/-- T3e `segment_query_returns`: on a built index `request([Q1, Q2])` does not raise when both ends are inside the
+closed extent, its upper border included (finding `query-on-upper-border`, repaired). -/
 theorem segment_query_returns {fl : α → Int} (hf : IsFloor fl) (feats : List (List (α × α))) (res : Option (α × α))
     (margin : α) (ix : Index α) (hm : 0 ≤ margin) (hres : ∀ r, res = some r → 0 < r.1 ∧ 0 < r.2)
     (hb : build fl feats res margin = .ok ix) (Q1 Q2 : α × α)
-    (h1 : (ix.xmin ≤ Q1.1 ∧ Q1.1 < ix.xmax) ∧ (ix.ymin ≤ Q1.2 ∧ Q1.2 < ix.ymax))
-    (h2 : (ix.xmin ≤ Q2.1 ∧ Q2.1 < ix.xmax) ∧ (ix.ymin ≤ Q2.2 ∧ Q2.2 < ix.ymax)) :
-    ∃ l, requestSeg fl ix Q1 Q2 = .ok l := by
-  obtain ⟨hw, _, _, _, _⟩ := build_spec feats res margin ix hm hb
-  obtain ⟨_, _, pX, pY, _, _⟩ := build_pos hf feats res margin ix hm hres hb
-  have hdX := pX (lt_of_le_of_lt h1.1.1 h1.1.2)
-  have hdY := pY (lt_of_le_of_lt h1.2.1 h1.2.2)
-  have hnz : NZ ix := (NZ_iff ix).mpr ⟨ne_of_gt hdX, ne_of_gt hdY⟩
-  obtain ⟨ex, ey, _, _⟩ := build_extent feats res margin ix hm hb
-  have g1 : getCell ix Q1 = some ((Q1.1 - ix.xmin) / ix.dX, (Q1.2 - ix.ymin) / ix.dY) :=
-    (getCell_some_iff ix Q1 _).mpr ⟨⟨h1.1.1, le_of_lt h1.1.2⟩, ⟨h1.2.1, le_of_lt h1.2.2⟩, rfl⟩
-  have g2 : getCell ix Q2 = some ((Q2.1 - ix.xmin) / ix.dX, (Q2.2 - ix.ymin) / ix.dY) :=
-    (getCell_some_iff ix Q2 _).mpr ⟨⟨h2.1.1, le_of_lt h2.1.2⟩, ⟨h2.2.1, le_of_lt h2.2.2⟩, rfl⟩
-  have a1 := floor_index_range hf ix.xmin ix.xmax ix.dX Q1.1 ix.csize hdX ex h1.1.1 h1.1.2
-  have a2 := floor_index_range hf ix.xmin ix.xmax ix.dX Q2.1 ix.csize hdX ex h2.1.1 h2.1.2
-  have b1 := floor_index_range hf ix.ymin ix.ymax ix.dY Q1.2 ix.lsize hdY ey h1.2.1 h1.2.2
-  have b2 := floor_index_range hf ix.ymin ix.ymax ix.dY Q2.2 ix.lsize hdY ey h2.2.1 h2.2.2
-  unfold requestSeg requestSegInto
-  simp only [getCellR_of_nz ix hnz, g1, g2]
-  apply collectCells_ok ix _ [] hw.2
-  intro cell hcell
-  have hc : (cell.1, cell.2) ∈ cellsCross fl ((Q1.1 - ix.xmin) / ix.dX, (Q1.2 - ix.ymin) / ix.dY)
-      ((Q2.1 - ix.xmin) / ix.dX, (Q2.2 - ix.ymin) / ix.dY) := hcell
-  rw [mem_cellsCross] at hc
-  obtain ⟨⟨c1, c2⟩, ⟨c3, c4⟩, _⟩ := hc
-  dsimp only at c1 c2 c3 c4
-  exact ⟨⟨by omega, by omega⟩, by omega, by omega⟩
+    (h1 : getCell ix Q1 ≠ none) (h2 : getCell ix Q2 ≠ none) :
+    ∃ l, requestSeg fl ix Q1 Q2 = .ok l :=
+  requestSegInto_ok hf ix (build_good hf feats res margin ix hm hres hb) [] Q1 Q2 h1 h2
 
-/-- T3d `track_query_complete`: the same for `request(track)` and every segment of the query track. -/
-theorem track_query_complete {fl : α → Int} (hf : IsFloor fl) (ix : Index α) (track : List (α × α)) (l : List Nat)
+/-- T3d `track_query_complete`: the same as T3c for `request(track)` and every segment of the query track. -/
+theorem track_query_complete {fl : α → Int} (hf : IsFloor fl) (feats : List (List (α × α))) (res : Option (α × α))
+    (margin : α) (ix : Index α) (hm : 0 ≤ margin) (hres : ∀ r, res = some r → 0 < r.1 ∧ 0 < r.2)
+    (hb : build fl feats res margin = .ok ix) (track : List (α × α)) (l : List Nat)
     (h : requestTrack fl ix track = .ok l) (Q1 Q2 : α × α) (hQ : (Q1, Q2) ∈ Consec track)
     (s : α) (hs0 : 0 ≤ s) (hs1 : s ≤ 1) :
-    ∃ c, getCell ix (lerp Q1 Q2 s) = some c ∧ ∀ k, Holds ix.grid (fl c.1) (fl c.2) k → k ∈ l := by
-  obtain ⟨_, hc⟩ := requestTrackLoop_spec fl ix track none [] l h
+    ∃ c, getCell ix (lerp Q1 Q2 s) = some c ∧ ∀ k, Holds ix.grid (cellOf fl ix c).1 (cellOf fl ix c).2 k → k ∈ l := by
+  have hg := build_good hf feats res margin ix hm hres hb
+  obtain ⟨_, hc⟩ := requestTrackLoop_spec fl ix hg.bounded track none [] l h
   obtain ⟨p1, p2, g1, g2, hcc⟩ := hc Q1 Q2 (by simpa using hQ)
-  refine ⟨lerp p1 p2 s, getCell_lerp ix Q1 Q2 p1 p2 s hs0 hs1 g1 g2, ?_⟩
+  have hP := getCell_lerp ix Q1 Q2 p1 p2 s hs0 hs1 g1 g2
+  obtain ⟨r1, r2⟩ := getCell_range hf feats res margin ix hm hres hb _ _ hP
+  refine ⟨lerp p1 p2 s, hP, ?_⟩
   intro k hk
-  exact hcc _ (cellsCross_complete hf p1 p2 s hs0 hs1) k hk
+  exact hcc _ (cellsCross_complete hf ix.csize ix.lsize p1 p2 s hs0 hs1 r1.2 r2.2) k hk
+
+/-- T3f `track_query_returns`: on a built index `request(track)` does not raise when every vertex of the query
+track is inside the closed extent. -/
+theorem track_query_returns {fl : α → Int} (hf : IsFloor fl) (feats : List (List (α × α))) (res : Option (α × α))
+    (margin : α) (ix : Index α) (hm : 0 ≤ margin) (hres : ∀ r, res = some r → 0 < r.1 ∧ 0 < r.2)
+    (hb : build fl feats res margin = .ok ix) (track : List (α × α)) (hin : ∀ p ∈ track, getCell ix p ≠ none) :
+    ∃ l, requestTrack fl ix track = .ok l :=
+  requestTrackLoop_ok hf ix (build_good hf feats res margin ix hm hres hb) track none [] (by simpa using hin)
 
 /-- T4a `units_sound`: with positive cell sizes, two points inside the extent whose coordinates differ by at most
 `d` on each axis (in particular two points at Euclidean distance ≤ `d`) fall in cells whose column and row indices
-differ by at most `groundDistanceToUnits(d) = floor(d / min(dX, dY) + 1)` (which does not raise). -/
+— floors of the fractional indices, hence also the clamped `cellOf` — differ by at most
+`groundDistanceToUnits(d) = floor(d / min(dX, dY) + 1)` (which does not raise). -/
 theorem units_sound {fl : α → Int} (hf : IsFloor fl) (ix : Index α) (hdX : 0 < ix.dX) (hdY : 0 < ix.dY)
     (p q cp cq : α × α) (d : α) (hp : getCell ix p = some cp) (hq : getCell ix q = some cq)
     (hx : -d ≤ q.1 - p.1 ∧ q.1 - p.1 ≤ d) (hy : -d ≤ q.2 - p.2 ∧ q.2 - p.2 ≤ d) :
     ∃ u, groundDistanceToUnits fl ix d = .ok u ∧ u = fl (d / min ix.dX ix.dY + 1) ∧
-      (fl cq.1 - fl cp.1 ≤ u ∧ fl cp.1 - fl cq.1 ≤ u) ∧ (fl cq.2 - fl cp.2 ≤ u ∧ fl cp.2 - fl cq.2 ≤ u) := by
+      (fl cq.1 - fl cp.1 ≤ u ∧ fl cp.1 - fl cq.1 ≤ u) ∧ (fl cq.2 - fl cp.2 ≤ u ∧ fl cp.2 - fl cq.2 ≤ u) ∧
+      ((cellOf fl ix cq).1 - (cellOf fl ix cp).1 ≤ u ∧ (cellOf fl ix cp).1 - (cellOf fl ix cq).1 ≤ u) ∧
+      ((cellOf fl ix cq).2 - (cellOf fl ix cp).2 ≤ u ∧ (cellOf fl ix cp).2 - (cellOf fl ix cq).2 ≤ u) := by
   obtain ⟨_, _, rfl⟩ := (getCell_some_iff ix p cp).mp hp
   obtain ⟨_, _, rfl⟩ := (getCell_some_iff ix q cq).mp hq
   have hmn : 0 < min ix.dX ix.dY := lt_min hdX hdY
   have hz : isZero (min ix.dX ix.dY) = false := (isZero_false_iff _).mpr (ne_of_gt hmn)
-  refine ⟨fl (d / min ix.dX ix.dY + 1), ?_, rfl, ?_⟩
+  have ax := units_axis hf p.1 q.1 ix.xmin ix.dX d _ hmn (min_le_left _ _) hx.1 hx.2
+  have ay := units_axis hf p.2 q.2 ix.ymin ix.dY d _ hmn (min_le_right _ _) hy.1 hy.2
+  have hu : 0 ≤ fl (d / min ix.dX ix.dY + 1) := by omega
+  refine ⟨fl (d / min ix.dX ix.dY + 1), ?_, rfl, ax, ay, ?_, ?_⟩
   · simp only [groundDistanceToUnits, pyMin_eq, Int.cast_one, hz, Bool.false_eq_true, if_false]
-  · exact ⟨units_axis hf p.1 q.1 ix.xmin ix.dX d _ hmn (min_le_left _ _) hx.1 hx.2,
-      units_axis hf p.2 q.2 ix.ymin ix.dY d _ hmn (min_le_right _ _) hy.1 hy.2⟩
+  · unfold cellOf; dsimp only; constructor <;> omega
+  · unfold cellOf; dsimp only; constructor <;> omega
 
 omit [Field α] [LinearOrder α] [IsStrictOrderedRing α] in
 /-- T4b `neighboringCells_square`: `__neighboringcells(i, j, u)` is exactly the square of Chebyshev radius `u`
@@ -154,8 +242,58 @@ theorem neighboringCells_square (ix : Index α) (i j u i' j' : Int) :
   · rintro ⟨⟨a, b, c, d⟩, e, f, g, h⟩
     exact ⟨⟨by omega, by omega⟩, by omega, by omega⟩
 
+/-- T4c' `neighborhood_finds_registered`: on ANY index on which nothing raises (`Good`: well formed, at least one
+column and row, positive cell sides — a built index, also after later `addFeature` / `Network.addEdge` calls), for
+every query point `q` of the closed extent and ground distance `d ≥ 0`: `groundDistanceToUnits(d)` and
+`neighborhood(q, unit = groundDistanceToUnits(d))` do not raise and the latter returns every feature `k` listed in
+the cell of a point `P` of the extent within Euclidean distance `d` of `q`. The answer is a function of the grid as
+it is now: nothing remembered from earlier queries enters it. -/
+theorem neighborhood_finds_registered {fl : α → Int} (hf : IsFloor fl) (ix : Index α) (hg : Good ix)
+    (k : Nat) (P cP : α × α) (hP : getCell ix P = some cP) (hHolds : Holds ix.grid (cellOf fl ix cP).1 (cellOf fl ix cP).2 k)
+    (q : α × α) (hq : getCell ix q ≠ none) (d : α) (hd : 0 ≤ d)
+    (hdist : (q.1 - P.1) ^ 2 + (q.2 - P.2) ^ 2 ≤ d ^ 2) :
+    ∃ u l, groundDistanceToUnits fl ix d = .ok u ∧ neighborhoodPoint fl ix q u = .ok (some l) ∧ k ∈ l := by
+  have hnz := hg.nz
+  have hbd := hg.bounded
+  have hgrid := cellOf_inGrid hf ix hg
+  obtain ⟨hw, hcs, hls, hdX, hdY, _⟩ := hg
+  obtain ⟨cq, hcq⟩ := Option.ne_none_iff_exists'.mp hq
+  -- coordinate differences are bounded by the Euclidean distance
+  have hx : -d ≤ q.1 - P.1 ∧ q.1 - P.1 ≤ d := by
+    have h2 : (q.1 - P.1) ^ 2 ≤ d ^ 2 := by nlinarith [sq_nonneg (q.2 - P.2)]
+    exact abs_le.mp (abs_le_of_sq_le_sq h2 hd)
+  have hy : -d ≤ q.2 - P.2 ∧ q.2 - P.2 ≤ d := by
+    have h2 : (q.2 - P.2) ^ 2 ≤ d ^ 2 := by nlinarith [sq_nonneg (q.1 - P.1)]
+    exact abs_le.mp (abs_le_of_sq_le_sq h2 hd)
+  obtain ⟨u, hgu, hueq, _, _, ⟨u1, u2⟩, u3, u4⟩ := units_sound hf ix hdX hdY P q cP cq d hP hcq hx hy
+  have hmn : 0 < min ix.dX ix.dY := lt_min hdX hdY
+  have hu1 : 1 ≤ u := by
+    rw [hueq]
+    exact units_pos hf d _ hd hmn
+  -- the cell of P is inside the grid
+  obtain ⟨⟨hi0, hi1⟩, hj0, hj1⟩ := hgrid _ cP hP
+  -- the query
+  refine ⟨u, ?_⟩
+  unfold neighborhoodPoint
+  simp only [getCellR_of_nz ix hnz hbd q, hcq]
+  unfold neighborhoodCell
+  have hne : (u != -1) = true := by
+    simp only [bne_iff_ne, ne_eq]; omega
+  simp only [hne, if_true]
+  obtain ⟨out, hout⟩ := collectCells_ok ix (neighboringCells ix (cellOf fl ix cq).1 (cellOf fl ix cq).2 u false) []
+    hw.2 (by
+      intro cell hcell
+      have := (neighboringCells_square ix _ _ _ cell.1 cell.2).mp hcell
+      exact ⟨⟨this.1.2.2.1, this.1.2.2.2⟩, this.2.2.2.1, this.2.2.2.2⟩)
+  refine ⟨out, hgu, by rw [hout], ?_⟩
+  obtain ⟨_, hall⟩ := collectCells_spec ix _ [] out hout
+  apply hall ((cellOf fl ix cP).1, (cellOf fl ix cP).2)
+  · rw [neighboringCells_square]
+    exact ⟨⟨by omega, by omega, hi0, hi1⟩, by omega, by omega, hj0, hj1⟩
+  · exact hHolds
+
 /-- T4c `neighborhood_complete`: for an index built with `margin ≥ 0` and a positive (or the default) cell size,
-a query point `q` inside the extent and a ground distance `d ≥ 0`:
+EVERY query point `q` of the closed extent and a ground distance `d ≥ 0`:
 `groundDistanceToUnits(d)` and `neighborhood(q, unit = groundDistanceToUnits(d))` do not raise and the latter
 returns every feature `k` that has a point `P` (on one of its segments) within Euclidean distance `d` of `q`. -/
 theorem neighborhood_complete {fl : α → Int} (hf : IsFloor fl) (feats : List (List (α × α))) (res : Option (α × α))
@@ -165,164 +303,89 @@ theorem neighborhood_complete {fl : α → Int} (hf : IsFloor fl) (feats : List 
     (s : α) (hs0 : 0 ≤ s) (hs1 : s ≤ 1) (q : α × α) (hq : getCell ix q ≠ none) (d : α) (hd : 0 ≤ d)
     (hdist : (q.1 - (lerp A B s).1) ^ 2 + (q.2 - (lerp A B s).2) ^ 2 ≤ d ^ 2) :
     ∃ u l, groundDistanceToUnits fl ix d = .ok u ∧ neighborhoodPoint fl ix q u = .ok (some l) ∧ k ∈ l := by
-  obtain ⟨hw, _, _, _, _⟩ := build_spec feats res margin ix hm hb
-  obtain ⟨hnz, nfx, nfy⟩ := build_nonflat feats res margin ix hm hb t (List.mem_of_getElem? hk)
-    (List.ne_nil_of_mem hAB)
-  obtain ⟨hcs, hls, pX, pY, _, _⟩ := build_pos hf feats res margin ix hm hres hb
-  have hdX := pX nfx
-  have hdY := pY nfy
-  obtain ⟨cP, hP, hHolds⟩ := build_registers hf feats res margin ix hm hb k t hk A B hAB s hs0 hs1
-  obtain ⟨cq, hcq⟩ := Option.ne_none_iff_exists'.mp hq
-  -- coordinate differences are bounded by the Euclidean distance
-  have hx : -d ≤ q.1 - (lerp A B s).1 ∧ q.1 - (lerp A B s).1 ≤ d := by
-    have h2 : (q.1 - (lerp A B s).1) ^ 2 ≤ d ^ 2 := by nlinarith [sq_nonneg (q.2 - (lerp A B s).2)]
-    exact abs_le.mp (abs_le_of_sq_le_sq h2 hd)
-  have hy : -d ≤ q.2 - (lerp A B s).2 ∧ q.2 - (lerp A B s).2 ≤ d := by
-    have h2 : (q.2 - (lerp A B s).2) ^ 2 ≤ d ^ 2 := by nlinarith [sq_nonneg (q.1 - (lerp A B s).1)]
-    exact abs_le.mp (abs_le_of_sq_le_sq h2 hd)
-  obtain ⟨u, hgu, hueq, ⟨u1, u2⟩, u3, u4⟩ := units_sound hf ix hdX hdY (lerp A B s) q cP cq d hP hcq hx hy
-  have hmn : 0 < min ix.dX ix.dY := lt_min hdX hdY
-  have hu1 : 1 ≤ u := by
-    rw [hueq]
-    exact units_pos hf d _ hd hmn
-  -- the cell of P is inside the grid
-  obtain ⟨a1, a2, rfl⟩ := (getCell_some_iff ix _ cP).mp hP
-  dsimp only at u1 u2 u3 u4 hHolds
-  have hi0 : 0 ≤ fl (((lerp A B s).1 - ix.xmin) / ix.dX) := by
-    have := hf.mono (div_nonneg (sub_nonneg.mpr a1.1) (le_of_lt hdX))
-    rwa [hf.zero] at this
-  have hj0 : 0 ≤ fl (((lerp A B s).2 - ix.ymin) / ix.dY) := by
-    have := hf.mono (div_nonneg (sub_nonneg.mpr a2.1) (le_of_lt hdY))
-    rwa [hf.zero] at this
-  obtain ⟨cl, hcl, hkcl⟩ := hHolds
-  obtain ⟨hi1, hj1⟩ := lt_of_cellGet_ok ix.grid _ _ hw.2 _ _ cl hcl hi0 hj0
-  have hi1' : fl (((lerp A B s).1 - ix.xmin) / ix.dX) < ix.csize := by omega
-  have hj1' : fl (((lerp A B s).2 - ix.ymin) / ix.dY) < ix.lsize := by omega
-  -- the query
-  refine ⟨u, ?_⟩
-  unfold neighborhoodPoint
-  simp only [getCellR_of_nz ix hnz q, hcq]
-  unfold neighborhoodCell
-  have hne : (u != -1) = true := by
-    simp only [bne_iff_ne, ne_eq]; omega
-  simp only [hne, if_true]
-  obtain ⟨out, hout⟩ := collectCells_ok ix (neighboringCells ix (fl cq.1) (fl cq.2) u false) []
-    hw.2 (by
-      intro cell hcell
-      have := (neighboringCells_square ix _ _ _ cell.1 cell.2).mp hcell
-      exact ⟨⟨this.1.2.2.1, this.1.2.2.2⟩, this.2.2.2.1, this.2.2.2.2⟩)
-  refine ⟨out, hgu, by rw [hout], ?_⟩
-  obtain ⟨_, hall⟩ := collectCells_spec ix _ [] out hout
-  apply hall (fl (((lerp A B s).1 - ix.xmin) / ix.dX), fl (((lerp A B s).2 - ix.ymin) / ix.dY))
-  · rw [neighboringCells_square]
-    exact ⟨⟨by omega, by omega, hi0, hi1'⟩, by omega, by omega, hj0, hj1'⟩
-  · exact ⟨cl, hcl, hkcl⟩
+  obtain ⟨cP, hP, hHolds⟩ := build_registers hf feats res margin ix hm hres hb k t hk A B hAB s hs0 hs1
+  exact neighborhood_finds_registered hf ix (build_good hf feats res margin ix hm hres hb) k _ cP hP hHolds q hq d hd hdist
 
-/-- Formal side of finding `vertex-on-upper-border` (D10): if the constructor returns (margin ≥ 0, positive or
-default cell size) then no point of any feature segment lies on the upper border `x = xmax` or `y = ymax` of the
-extent. With `margin = 0` the extent is the bounding box, so a right-most or top-most vertex that belongs to a
-track of at least two points makes the constructor raise (the model's `grid[csize]` IndexError). -/
-theorem vertex_on_upper_border_raises {fl : α → Int} (hf : IsFloor fl) (feats : List (List (α × α))) (res : Option (α × α))
-    (margin : α) (ix : Index α) (hm : 0 ≤ margin) (hres : ∀ r, res = some r → 0 < r.1 ∧ 0 < r.2)
-    (hb : build fl feats res margin = .ok ix)
-    (k : Nat) (t : List (α × α)) (hk : feats[k]? = some t) (A B : α × α) (hAB : (A, B) ∈ Consec t)
-    (s : α) (hs0 : 0 ≤ s) (hs1 : s ≤ 1) :
-    (lerp A B s).1 < ix.xmax ∧ (lerp A B s).2 < ix.ymax := by
-  obtain ⟨hw, _, _, _, _⟩ := build_spec feats res margin ix hm hb
-  obtain ⟨_, nfx, nfy⟩ := build_nonflat feats res margin ix hm hb t (List.mem_of_getElem? hk)
-    (List.ne_nil_of_mem hAB)
-  obtain ⟨_, _, pX, pY, _, _⟩ := build_pos hf feats res margin ix hm hres hb
-  have hdX := pX nfx
-  have hdY := pY nfy
-  obtain ⟨ex, ey, _, _⟩ := build_extent feats res margin ix hm hb
-  obtain ⟨cP, hP, cl, hcl, _⟩ := build_registers hf feats res margin ix hm hb k t hk A B hAB s hs0 hs1
-  obtain ⟨a1, a2, rfl⟩ := (getCell_some_iff ix _ cP).mp hP
-  dsimp only at hcl
-  have hi0 : 0 ≤ fl (((lerp A B s).1 - ix.xmin) / ix.dX) := by
-    have := hf.mono (div_nonneg (sub_nonneg.mpr a1.1) (le_of_lt hdX))
-    rwa [hf.zero] at this
-  have hj0 : 0 ≤ fl (((lerp A B s).2 - ix.ymin) / ix.dY) := by
-    have := hf.mono (div_nonneg (sub_nonneg.mpr a2.1) (le_of_lt hdY))
-    rwa [hf.zero] at this
-  obtain ⟨hi1, hj1⟩ := lt_of_cellGet_ok ix.grid _ _ hw.2 _ _ cl hcl hi0 hj0
-  constructor
-  · by_contra hc
-    have he : (lerp A B s).1 = ix.xmax := le_antisymm a1.2 (not_lt.mp hc)
-    have : ((lerp A B s).1 - ix.xmin) / ix.dX = ((ix.csize : Int) : α) := by
-      rw [he, ← ex, mul_comm, mul_div_assoc, div_self (ne_of_gt hdX), mul_one]
-    rw [this, hf.eq_of (le_refl _) (by linarith)] at hi1
-    omega
-  · by_contra hc
-    have he : (lerp A B s).2 = ix.ymax := le_antisymm a2.2 (not_lt.mp hc)
-    have : ((lerp A B s).2 - ix.ymin) / ix.dY = ((ix.lsize : Int) : α) := by
-      rw [he, ← ey, mul_comm, mul_div_assoc, div_self (ne_of_gt hdY), mul_one]
-    rw [this, hf.eq_of (le_refl _) (by linarith)] at hj1
-    omega
-
-/-- Formal side of finding `query-on-upper-border`: on a built index, `request(q)` for a point `q` of the extent
-with `x = xmax` or `y = ymax` raises: IndexError when the extent is not flat (`__getCell` accepts the point and
-returns index `csize` / `lsize`), and ZeroDivisionError (in `__getCell`) when it is flat. -/
-theorem point_query_on_upper_border_raises {fl : α → Int} (hf : IsFloor fl) (feats : List (List (α × α)))
-    (res : Option (α × α)) (margin : α) (ix : Index α) (hm : 0 ≤ margin) (hres : ∀ r, res = some r → 0 < r.1 ∧ 0 < r.2)
-    (hb : build fl feats res margin = .ok ix) (q : α × α) (hq : getCell ix q ≠ none)
-    (hborder : q.1 = ix.xmax ∨ q.2 = ix.ymax) :
-    requestPoint fl ix q = .error (if ix.xmin < ix.xmax ∧ ix.ymin < ix.ymax then .index else .zerodiv) := by
-  obtain ⟨hw, _, _, _, _⟩ := build_spec feats res margin ix hm hb
-  obtain ⟨hcs, hls, pX, pY, zX, zY⟩ := build_pos hf feats res margin ix hm hres hb
-  obtain ⟨ex, ey, _, _⟩ := build_extent feats res margin ix hm hb
-  obtain ⟨cq, hcq⟩ := Option.ne_none_iff_exists'.mp hq
-  obtain ⟨⟨a1, a2⟩, ⟨b1, b2⟩, rfl⟩ := (getCell_some_iff ix q cq).mp hcq
-  by_cases hnf : ix.xmin < ix.xmax ∧ ix.ymin < ix.ymax
-  · rw [if_pos hnf]
-    have hdX := pX hnf.1
-    have hdY := pY hnf.2
-    have hnz : NZ ix := (NZ_iff ix).mpr ⟨ne_of_gt hdX, ne_of_gt hdY⟩
+/-- T5 `late_feature_complete`: a feature added to an existing index — `addFeature(track, num)` after construction,
+which is what `Network.addEdge` does on an indexed network — whose vertices are all inside the extent: the call
+returns an index `ix'` with the same extent and grid dimensions in which everything registered before is still
+registered, every point of every segment of the track lies in a cell that lists `num`, a point request in that cell
+returns `num`, and a neighbourhood query from a ground distance `d` around any point `q` within `d` of the track
+returns `num` — whatever was asked of the index before the addition. (`ix` is any index reached from a built one by
+such additions: `Good` is kept; `built_index_good` is the starting point.) -/
+theorem late_feature_complete {fl : α → Int} (hf : IsFloor fl) (ix : Index α) (hg : Good ix)
+    (track : List (α × α)) (num : Nat) (hin : ∀ p ∈ track, getCell ix p ≠ none) :
+    ∃ ix', addFeature fl ix track num = .ok ix' ∧ Good ix' ∧ Same ix ix' ∧
+      (∀ i j k, Holds ix.grid i j k → Holds ix'.grid i j k) ∧
+      ∀ A B, (A, B) ∈ Consec track → ∀ s : α, 0 ≤ s → s ≤ 1 →
+        (∃ c, getCell ix' (lerp A B s) = some c ∧ Holds ix'.grid (cellOf fl ix' c).1 (cellOf fl ix' c).2 num) ∧
+        (∃ l, requestPoint fl ix' (lerp A B s) = .ok l ∧ num ∈ l) ∧
+        (∀ (q : α × α) (d : α), getCell ix' q ≠ none → 0 ≤ d →
+          (q.1 - (lerp A B s).1) ^ 2 + (q.2 - (lerp A B s).2) ^ 2 ≤ d ^ 2 →
+          ∃ u l, groundDistanceToUnits fl ix' d = .ok u ∧ neighborhoodPoint fl ix' q u = .ok (some l) ∧ num ∈ l) := by
+  obtain ⟨ix', h, hg', e, hreg⟩ := addFeature_complete hf ix hg track num hin
+  refine ⟨ix', h, hg', e.1, e.2, ?_⟩
+  intro A B hAB s hs0 hs1
+  obtain ⟨c, hc, hH⟩ := hreg A B hAB s hs0 hs1
+  refine ⟨⟨c, hc, hH⟩, ?_, ?_⟩
+  · obtain ⟨l, hl, hkl⟩ := hH
+    refine ⟨l, ?_, hkl⟩
     unfold requestPoint requestCell
-    simp only [getCellR_of_nz ix hnz q, hcq]
-    rcases hborder with he | he
-    · have : (q.1 - ix.xmin) / ix.dX = ((ix.csize : Int) : α) := by
-        rw [he, ← ex, mul_comm, mul_div_assoc, div_self (ne_of_gt hdX), mul_one]
-      rw [this, hf.eq_of (le_refl _) (by linarith)]
-      apply cellGet_err_col
-      rw [hw.2.1]; omega
-    · have : (q.2 - ix.ymin) / ix.dY = ((ix.lsize : Int) : α) := by
-        rw [he, ← ey, mul_comm, mul_div_assoc, div_self (ne_of_gt hdY), mul_one]
-      rw [this, hf.eq_of (le_refl _) (by linarith)]
-      apply cellGet_err_row _ _ _ hw.2
-      omega
-  · rw [if_neg hnf]
-    have hz : ¬ NZ ix := by
-      intro hnz
-      obtain ⟨zx, zy⟩ := (NZ_iff ix).mp hnz
-      apply hnf
-      constructor
-      · exact lt_of_le_of_ne (le_trans a1 a2) (fun h => zx (zX h))
-      · exact lt_of_le_of_ne (le_trans b1 b2) (fun h => zy (zY h))
-    unfold requestPoint
-    rw [getCellR_error ix q _ hcq hz]
+    simp only [getCellR_of_nz ix' hg'.nz hg'.bounded, hc]
+    exact hl
+  · intro q d hq hd hdist
+    exact neighborhood_finds_registered hf ix' hg' num _ c hc hH q hq d hd hdist
 
-/-- `default_resolution_builds` (the repair 9a44198): with the default resolution, `margin ≥ 0` and a bounding box
-that is not a single point, `__init__` reaches the registration loop without raising, with at least one column
-and one row, and with a positive cell side on every axis along which the bounding box has a positive length — for
-every aspect ratio (an extent more than 100 times wider than tall, or the converse, used to raise
-ZeroDivisionError). -/
-theorem default_resolution_builds (fl : α → Int) (bb : α × α × α × α) (margin : α) (hm : 0 ≤ margin)
-    (hbx : bb.1 ≤ bb.2.1) (hby : bb.2.2.1 ≤ bb.2.2.2) (hne : bb.1 < bb.2.1 ∨ bb.2.2.1 < bb.2.2.2) :
-    ∃ ix, mkIndex fl bb none margin = .ok ix ∧ 1 ≤ ix.csize ∧ 1 ≤ ix.lsize ∧
-      (bb.1 < bb.2.1 → 0 < ix.dX) ∧ (bb.2.2.1 < bb.2.2.2 → 0 < ix.dY) :=
-  mkIndex_default fl bb margin hm hbx hby hne
+/-- a built index is `Good` (well formed, at least one column and row, positive cell sides, the cells cover the
+extent): the starting point of `late_feature_complete`, which keeps it -/
+theorem built_index_good {fl : α → Int} (hf : IsFloor fl) (feats : List (List (α × α))) (res : Option (α × α))
+    (margin : α) (ix : Index α) (hm : 0 ≤ margin) (hres : ∀ r, res = some r → 0 < r.1 ∧ 0 < r.2)
+    (hb : build fl feats res margin = .ok ix) : Good ix :=
+  build_good hf feats res margin ix hm hres hb
 
-/-- Formal side of finding `default-resolution-flat-extent`: if the constructor (`margin ≥ 0`) returns over a collection in which
-some feature has a segment (two vertices or more), then the extent is not flat: `xmin < xmax` and `ymin < ymax`,
-and no cell side is `0`. So for a collection with a segment whose vertices all share one abscissa or one ordinate
-(a straight east-west or north-south track) the constructor raises: ZeroDivisionError in `__getCell` with the
-default resolution (one row of height `0`), in `__init__` with an explicit one (`int(0 / ry) = 0` rows). -/
-theorem flat_extent_raises {fl : α → Int} (feats : List (List (α × α))) (res : Option (α × α)) (margin : α)
-    (ix : Index α) (hm : 0 ≤ margin) (hb : build fl feats res margin = .ok ix)
-    (t : List (α × α)) (ht : t ∈ feats) (A B : α × α) (hAB : (A, B) ∈ Consec t) :
-    ix.xmin < ix.xmax ∧ ix.ymin < ix.ymax ∧ ix.dX ≠ 0 ∧ ix.dY ≠ 0 := by
-  obtain ⟨hnz, nfx, nfy⟩ := build_nonflat feats res margin ix hm hb t ht (List.ne_nil_of_mem hAB)
-  exact ⟨nfx, nfy, (NZ_iff ix).mp hnz⟩
+/-- `grid_always_builds` (the repairs 9a44198 and the degenerate-extent one): with the default resolution or a
+positive explicit cell size, `__init__` reaches the registration loop without raising for EVERY bounding box — an
+extent more than 100 times wider than tall, a flat one (all vertices on one horizontal or vertical line), a single
+point, one shorter than the cell size on an axis: the grid has at least one column and one row, both cell sides
+are positive (so `__getCell` and `groundDistanceToUnits` never divide by zero), the cells tile every axis of
+positive length exactly, and an axis of zero length has one column / row. (Each of these cases used to raise
+ZeroDivisionError.) -/
+theorem grid_always_builds {fl : α → Int} (hf : IsFloor fl) (bb : α × α × α × α) (res : Option (α × α)) (margin : α)
+    (hres : ∀ r, res = some r → 0 < r.1 ∧ 0 < r.2) :
+    ∃ ix, mkIndex fl bb res margin = .ok ix ∧ 1 ≤ ix.csize ∧ 1 ≤ ix.lsize ∧ 0 < ix.dX ∧ 0 < ix.dY ∧
+      (ix.xmin < ix.xmax → ix.dX * ((ix.csize : Int) : α) = ix.xmax - ix.xmin) ∧
+      (ix.ymin < ix.ymax → ix.dY * ((ix.lsize : Int) : α) = ix.ymax - ix.ymin) ∧
+      (ix.xmin = ix.xmax → ix.csize = 1) ∧ (ix.ymin = ix.ymax → ix.lsize = 1) :=
+  mkIndex_builds hf bb res margin hres
+
+/-- `flat_axis_single_column`: on a built index whose extent has zero length along x (all vertices share one
+abscissa: a straight north-south track) there is one column and every point of the extent — every vertex, every
+admissible query point — has column index `0`; likewise along y. Together with T3/T4 (which speak about every
+built index) such a collection is indexed and queried like any other. -/
+theorem flat_axis_single_column {fl : α → Int} (hf : IsFloor fl) (feats : List (List (α × α))) (res : Option (α × α))
+    (margin : α) (ix : Index α) (hm : 0 ≤ margin) (hres : ∀ r, res = some r → 0 < r.1 ∧ 0 < r.2)
+    (hb : build fl feats res margin = .ok ix) (p c : α × α) (hp : getCell ix p = some c) :
+    (ix.xmin = ix.xmax → ix.csize = 1 ∧ (cellOf fl ix c).1 = 0) ∧
+    (ix.ymin = ix.ymax → ix.lsize = 1 ∧ (cellOf fl ix c).2 = 0) := by
+  obtain ⟨_, _, _, _, _, _, oX, oY⟩ := build_grid hf feats res margin ix hm hres hb
+  obtain ⟨⟨a1, a2⟩, ⟨b1, b2⟩, rfl⟩ := (getCell_some_iff ix p c).mp hp
+  constructor
+  · intro h
+    refine ⟨oX h, ?_⟩
+    have : p.1 - ix.xmin = 0 := by
+      have : p.1 = ix.xmin := le_antisymm (by rw [h]; exact a2) a1
+      rw [this]; ring
+    unfold cellOf
+    simp only [this, zero_div, hf.zero, oX h]
+    rfl
+  · intro h
+    refine ⟨oY h, ?_⟩
+    have : p.2 - ix.ymin = 0 := by
+      have : p.2 = ix.ymin := le_antisymm (by rw [h]; exact b2) b1
+      rw [this]; ring
+    unfold cellOf
+    simp only [this, zero_div, hf.zero, oY h]
+    rfl
 
 /-! ### non-vacuity -/
 
@@ -338,8 +401,43 @@ cell size (1,1) and margin 1/2 is built (8 x 6 cells over [-2,6] x [-3/2,9/2]) -
 example : (build Rat.floor [[((0 : ℚ), (0 : ℚ)), (4, 3)], [(1, 5/2), (2, 5/2), (4, 0)]] (some (1, 1)) (1/2)).toBool = true := by
   decide +kernel
 
-/-- with margin 0 no index is built (finding `vertex-on-upper-border`): the constructor raises IndexError -/
-example : (build Rat.floor [[((0 : ℚ), (0 : ℚ)), (1, 1)]] (some (1, 1)) 0).toBool = false := by
+/-- regression witness of finding `vertex-on-upper-border` (repaired): with margin 0 the track (0,0)-(1,1), cell
+size (1,1), is indexed on a 1 x 1 grid (the constructor used to raise IndexError: the vertex (1,1) has fractional
+indices (csize, lsize)); the corner (1,1), the border point (1/2,1) and the border segment (1,0)-(1,1) find it -/
+example : (match build Rat.floor [[((0 : ℚ), (0 : ℚ)), (1, 1)]] (some (1, 1)) 0 with
+    | .ok ix => (ix.csize, ix.lsize, requestPoint Rat.floor ix (1, 1), requestPoint Rat.floor ix (1/2, 1),
+        requestSeg Rat.floor ix (1, 0) (1, 1))
+    | .error _ => (0, 0, .error .exit, .error .exit, .error .exit)) = (1, 1, .ok [0], .ok [0], .ok [0]) := by
+  decide +kernel
+
+/-- segments lying exactly on the upper border (margin 0, 2 x 2 cells over [0,2]²): track 0 = (0,0)-(2,0)-(2,2) runs
+along the right border, track 1 = (0,2)-(2,2) along the top one. The border points (2,1), (1,2), (2,2) belong to
+the last column / row and find both tracks; the interior point (1/2,1/2) finds track 0 only -/
+example : (match build Rat.floor [[((0 : ℚ), (0 : ℚ)), (2, 0), (2, 2)], [(0, 2), (2, 2)]] (some (1, 1)) 0 with
+    | .ok ix => (requestPoint Rat.floor ix (2, 1), requestPoint Rat.floor ix (1, 2), requestPoint Rat.floor ix (2, 2),
+        requestPoint Rat.floor ix (1/2, 1/2))
+    | .error _ => (.error .exit, .error .exit, .error .exit, .error .exit)) = (.ok [0, 1], .ok [0, 1], .ok [0, 1], .ok [0]) := by
+  decide +kernel
+
+/-- regression witness of finding `query-on-upper-border` (repaired): on the index of the track (0,0)-(2,2), cell
+size (1,1), margin 1/2 (extent [-1,3]², 4 x 4 cells), `request` of the border point (3,1), of the corner (3,3)
+and of the segment (3,-1)-(3,3) lying on the border return (they used to raise IndexError) -/
+example : (match build Rat.floor [[((0 : ℚ), (0 : ℚ)), (2, 2)]] (some (1, 1)) (1/2) with
+    | .ok ix => (requestPoint Rat.floor ix (3, 1), requestPoint Rat.floor ix (3, 3), requestSeg Rat.floor ix (3, -1) (3, 3))
+    | .error _ => (.error .exit, .error .exit, .error .exit)) = (.ok [0], .ok [0], .ok [0]) := by
+  decide +kernel
+
+/-- a later addition (the hypotheses of `late_feature_complete` are satisfiable): the network of the two edges
+(0,0)-(100,0) and (0,100)-(100,100), cell size (10,10), margin 1/20; the neighbourhood of (50,50) for a ground distance
+15 (2 units) is empty; after `addFeature` of the edge (58,58)-(62,62) under number 2 — it crosses cells next to that of
+(50,50), not that cell itself — the same query returns it -/
+example : (match build Rat.floor [[((0 : ℚ), (0 : ℚ)), (100, 0)], [(0, 100), (100, 100)]] (some (10, 10)) (1/20) with
+    | .ok ix =>
+      (match addFeature Rat.floor ix [(58, 58), (62, 62)] 2 with
+       | .ok ix' => (groundDistanceToUnits Rat.floor ix 15, neighborhoodPoint Rat.floor ix (50, 50) 2,
+                     neighborhoodPoint Rat.floor ix' (50, 50) 2)
+       | .error _ => (.error .exit, .error .exit, .error .exit))
+    | .error _ => (.error .exit, .error .exit, .error .exit)) = (.ok 2, .ok (some []), .ok (some [2])) := by
   decide +kernel
 
 /-- regression witness of the defect repaired by ad7c5ee: cells 60 x 1, distance 10 gives 11 units (was 1) -/
@@ -354,17 +452,33 @@ example : (match build Rat.floor [[((0 : ℚ), (0 : ℚ)), (1000, 5)]] none (1/2
     = (100, 1, .ok [0]) := by
   decide +kernel
 
-/-- a straight east-west track has a flat extent: with the default resolution the constructor raises
-ZeroDivisionError (finding `default-resolution-flat-extent`; `flat_extent_raises`) -/
+/-- regression witness of the degenerate-extent repair: the straight east-west track (0,0)-(10,0) with the default
+resolution and margin 1/20 is indexed on a 100 x 1 grid (it used to raise ZeroDivisionError in `__getCell`), the
+point (5, 0) finds it, and a ground distance of 1 is 10 units (cell side 11/100 on both axes) -/
 example : (match build Rat.floor [[((0 : ℚ), (0 : ℚ)), (10, 0)]] none (1/20) with
-    | .error .zerodiv => true | _ => false) = true := by
+    | .ok ix => (ix.csize, ix.lsize, requestPoint Rat.floor ix (5, 0), groundDistanceToUnits Rat.floor ix 1)
+    | .error _ => (0, 0, .error .exit, .error .exit)) = (100, 1, .ok [0], .ok 10) := by
   decide +kernel
 
-/-- two one-point features at the same ordinate: the default-resolution index is built (100 x 1 cells of height 0)
-and every point request raises ZeroDivisionError -/
-example : (match build Rat.floor [[((0 : ℚ), (0 : ℚ))], [(10, 0)]] none (1/20) with
-    | .ok ix => (match requestPoint Rat.floor ix (5, 0) with | .error .zerodiv => true | _ => false)
-    | .error _ => false) = true := by
+/-- the same track with an explicit cell size (2, 2): 5 x 1 cells (`int(0 / 2) = 0` rows used to raise
+ZeroDivisionError in `__init__`) -/
+example : (match build Rat.floor [[((0 : ℚ), (0 : ℚ)), (10, 0)]] (some (2, 2)) (1/20) with
+    | .ok ix => (ix.csize, ix.lsize, requestPoint Rat.floor ix (5, 0)) | .error _ => (0, 0, .error .exit))
+    = (5, 1, .ok [0]) := by
+  decide +kernel
+
+/-- an explicit cell size larger than the extent on one axis: the track (0,0)-(10,1) with cells (2, 5) is indexed on
+5 x 1 cells of height 11/10 (`int(1.1 / 5) = 0` rows used to raise ZeroDivisionError) -/
+example : (match build Rat.floor [[((0 : ℚ), (0 : ℚ)), (10, 1)]] (some (2, 5)) (1/20) with
+    | .ok ix => (ix.csize, ix.lsize, ix.dY, requestPoint Rat.floor ix (5, 1/2)) | .error _ => (0, 0, 0, .error .exit))
+    = (5, 1, 11/10, .ok [0]) := by
+  decide +kernel
+
+/-- a bounding box that is a single point (a track that never moves): one cell of unit side (`r = 0 / 100` used to
+raise ZeroDivisionError), and the point finds the track -/
+example : (match build Rat.floor [[((3 : ℚ), (4 : ℚ)), (3, 4)]] none (1/20) with
+    | .ok ix => (ix.csize, ix.lsize, ix.dX, ix.dY, requestPoint Rat.floor ix (3, 4)) | .error _ => (0, 0, 0, 0, .error .exit))
+    = (1, 1, 1, 1, .ok [0]) := by
   decide +kernel
 
 end TV.C08
